@@ -380,25 +380,31 @@ def check_rounds2(p0: bool, x0: int, y0: int, p1: bool, x1: int, y1: int) -> boo
     seq, quals = _text()
     n = len(seq)
     stub = StubAdapter("a", [(kinds[0], x0, y0, 1, 0) if p0 else None, (kinds[1], x1, y1, 1, 0) if p1 else None])
-    cutter = AdapterCutter([stub], times=2, action=action, index=False)
+    try:
+        cutter = AdapterCutter([stub], times=2, action=action, index=False)
+    except ValueError:
+        # 'retain' and 'crop' are refused together with --times > 1 (nothing is written, so nothing wrong is written);
+        # if a tree accepts the combination, what it writes has to be the documented interval of the last match
+        return action in ("retain", "crop")
     read = Rec("r", seq, quals)
     info = ModificationInfo(read)
     out = cutter(read, info)
     if not p0:
         return len(info.matches) == 0 and _untouched_or_upper(out, seq, quals, action)
     # a slice of a slice is a slice with the composed offsets
-    lo, hi = _single_intervals(kinds[0], x0, y0, n)[0]
+    t, r, c = _single_intervals(kinds[0], x0, y0, n)
+    lo, hi = t
     rounds = 1
     if p1:
         m = hi - lo
         s1 = clamp(x1, 0, m)
         e1 = clamp(y1, s1, m)
-        lo2, hi2 = _single_intervals(kinds[1], s1, e1, m)[0]
-        lo, hi = lo + lo2, lo + hi2
+        t2, r2, c2 = _single_intervals(kinds[1], s1, e1, m)
+        t, r, c = (lo + t2[0], lo + t2[1]), (lo + r2[0], lo + r2[1]), (lo + c2[0], lo + c2[1])
         rounds = 2
     if len(info.matches) != rounds:
         return False
-    return _action_ok(out, action, seq, quals, (lo, hi), None, None)
+    return _action_ok(out, action, seq, quals, t, r, c)
 
 
 # ------------------------------------------------------------------------------------------ --revcomp, single-end
@@ -561,6 +567,10 @@ for _action in ("trim", "mask", "lowercase", None):
     for _kinds in _it.product(_KINDS, repeat=2):
         CONDITIONS.append({"name": "times2/%s/%s" % (_action, _k(_kinds)), "fn": "check_rounds2",
                            "param": {"action": _action, "kinds": _kinds, "seq": "AcgT"}, "timeout": 180})
+for _action in ("retain", "crop"):
+    for _kinds in _it.product(_KINDS, repeat=2):
+        CONDITIONS.append({"name": "times2/%s/%s/refused_or_correct" % (_action, _k(_kinds)), "fn": "check_rounds2",
+                           "param": {"action": _action, "kinds": _kinds, "seq": "AcgT"}, "timeout": 180})
 for _action in _ACTIONS:
     for _kinds in _it.product(_KINDS, repeat=2):
         _quick = _action == "trim" or _kinds == ("before", "after")
@@ -605,7 +615,7 @@ _BOUNDS = {
     "match coordinates": "every 0 <= rstart <= rstop <= len (second round / 3' part of a linked adapter: every interval of what the first match left); "
                          "absent matches as symbolic flags (single, --times 2, --revcomp, --pair-adapters) or fixed shapes (linked, paired --revcomp)",
     "scores": "-3..3 (--revcomp), -2..2 for each of the four searches (paired --revcomp): only their order matters",
-    "actions": "trim, mask, lowercase, retain, crop, none with --times 1; trim, mask, lowercase, none with --times 2",
+    "actions": "trim, mask, lowercase, retain, crop, none with --times 1; trim, mask, lowercase, none with --times 2; retain and crop with --times 2 must be refused or give the documented interval of the last match",
     "characters": "NEndTrimmer: all strings over {A,N,n} up to length 4; ZeroCapper: all quality strings up to length 4 over 4 characters around the base (33 and 64)",
     "concretisation": "_fix() turns the bounded match coordinates into concrete ints (one CrossHair path per value) in the linked, --revcomp and paired conditions; scores, flags and the other conditions' ints stay symbolic",
 }
